@@ -55,7 +55,7 @@ func sysEW(prop string, r *rng, emit func(string)) {
 		for _, la := range lays {
 			switch prop {
 			case "C06", "C07":
-				for _, op := range []string{"add", "sub", "mul", "div", "mod"} {
+				for _, op := range []string{"add", "sub", "mul", "div", "mod", "min", "max"} {
 					if op == "div" && (dt == "f64" || dt == "f32") {
 						continue // quotients are not integer valued
 					}
@@ -305,9 +305,7 @@ func genEW(prop, tier string, r *rng, emit func(string)) {
 			if op == "div" || op == "mod" {
 				sc = r.rangeInt(0, 3)
 			}
-			if op == "min" || op == "max" {
-				op = []string{"add", "sub", "mul"}[r.intn(3)] // scalar forms of min/max are not modelled
-			}
+			// (the scalar forms of MinBetween / MaxBetween are modelled since eng_minmax_scalar)
 			opstr = fmt.Sprintf("bins:%s:%d:%d:%s:%s%s", op, a, sc, side, mstr, form)
 		case "cmp":
 			same := []string{"bool", "same"}[r.intn(2)]
